@@ -365,7 +365,7 @@ def main():
         rc,o=sh('go build ./... 2>&1 | tail -5', cwd=WT)
         rb,ob=sh('go vet '+' '.join(pk)+' 2>&1 | tail -3', cwd=WT)
         t0=time.time()
-        rt,ot=sh('go test -count=1 '+' '.join(pk)+' 2>&1 | tail -8', cwd=WT, timeout=1200)
+        rt,ot=sh('go test -count=1 -timeout 120s '+' '.join(pk)+' 2>&1 | tail -8', cwd=WT, timeout=1200)
         gotest='pass' if ('FAIL' not in ot and 'panic' not in ot) else 'FAIL'
         t1=time.time()
         rc2,o2=sh('VERIF_REPO=%s ./check C04 --tier %s 2>&1 | tee %s/%s.log | grep "^VIOLATION\\|tier="' % (WT,tier,LOGDIR,n), cwd='/verif', timeout=3000)
